@@ -2,6 +2,7 @@ package c08
 
 import (
 	"bufio"
+	"bytes"
 	"crypto/tls"
 	"fmt"
 	"io"
@@ -328,7 +329,30 @@ func TestC08Direct(t *testing.T) {
 		}
 		tg := tbl[""][0].Targets[0]
 		cap := &capture{}
-		p := &proxy.HTTPProxy{Stats: wire.Stats(), Config: s.cfg, Transport: cap, Lookup: func(*http.Request) *route.Target { return tg }}
+		lookup := func(*http.Request) *route.Target { return tg }
+		// sometimes the request first meets a redirect route for its own host that is skipped because
+		// it would redirect the request to itself (the client says X-Forwarded-Proto: <scheme of the
+		// redirect>); it then falls through to the route above
+		if xfp := s.sent["X-Forwarded-Proto"]; len(xfp) == 1 && (xfp[0] == "http" || xfp[0] == "https") && !strings.HasPrefix(s.host, "[") && rapid.Bool().Draw(t, "skipped-self-redirect-first") {
+			text := fmt.Sprintf("route add redir %s/ %s://%s/$path opts \"redirect=301\"\nroute add svc / http://upstream.internal:8000/", strings.ToLower(s.host), xfp[0], s.host)
+			if len(opts) > 0 {
+				var o []string
+				for k, v := range opts {
+					o = append(o, k+"="+v)
+				}
+				text += ` opts "` + strings.Join(o, " ") + `"`
+			}
+			tbl2, err := route.NewTable(bytes.NewBufferString(text))
+			if err != nil {
+				t.Fatalf("%v\n%s", err, text)
+			}
+			cache := route.NewGlobCache(10)
+			lookup = func(r *http.Request) *route.Target {
+				return tbl2.Lookup(r, "", route.Picker["rr"], route.Matcher["prefix"], cache, false)
+			}
+			hx.Class("skipped-self-redirect-before-the-route")
+		}
+		p := &proxy.HTTPProxy{Stats: wire.Stats(), Config: s.cfg, Transport: cap, Lookup: lookup}
 		req := &http.Request{
 			Method: "GET", Proto: "HTTP/1.1", ProtoMajor: 1, ProtoMinor: 1,
 			URL:        &url.URL{Path: "/api/x"},
